@@ -530,6 +530,14 @@ def _fuzz_one(item):
     for r in (r1, r2):
         if r["exc"] is not None:
             res["why"] = "exception " + r["exc"]
+            # where does it come from?  the front end alone (lexer, parser, visitor) or the checker
+            proc, syn, fexc = check_core.front_process(text)
+            res["front_exc"] = fexc
+            if proc is not None:
+                try:
+                    res["prog"] = check_core.process_to_prog(proc)
+                except Exception as e:  # noqa: BLE001
+                    res["prog_error"] = type(e).__name__
             return res
         if r["valid"] not in (True, False):
             res["why"] = "no verdict"
@@ -641,16 +649,34 @@ def slice_C16(pid, cfg, tier, seed, workdir, rep, stats, findings):
     stats["generated"] += len(items)
     with ProcessPoolExecutor(max_workers=14, initializer=_init_worker, initargs=(workdir,)) as ex:
         results = list(ex.map(_fuzz_one, items, chunksize=16))
-    for (kind, text), r in zip(items, results):
+    # exceptions raised by the checker on a syntactically valid fuzz text: the text is read back
+    # into an AST through the implementation's own front end, the model and the shape predicates
+    # are evaluated on it; attributed only if the model predicts the same exception class and the
+    # crash shape holds
+    crashed = [(i, r) for i, r in enumerate(results) if r.get("prog") is not None]
+    models = {}
+    if crashed:
+        ms = check_core.model_eval([r["prog"] for _, r in crashed], workdir, extra=EXTRA, header=HEADER, tag="fuzzchk")
+        models = {i: m for (i, _), m in zip(crashed, ms)}
+    for i, ((kind, text), r) in enumerate(zip(items, results)):
         stats["fuzz:" + kind] += 1
         stats["fuzz_verdict:" + str(r["valid"])] += 1
         if r["why"]:
-            if ("D22-json-string-raises" in known and r["why"].startswith("exception")
-                    and r["exc"] in ("JSONDecodeError", "ValueError") and shape_json_string_not_loadable(text)):
-                stats["known:D22-json-string-raises"] += 1
+            fid = None
+            if r["why"].startswith("exception"):
+                if r.get("front_exc") in ("JSONDecodeError", "ValueError") and shape_json_string_not_loadable(text):
+                    fid = "D22-json-string-raises" if "D22-json-string-raises" in known else None
+                elif i in models:
+                    m = models[i]
+                    if m["status"] == "exn" and m["exn"] == r["exc"]:
+                        fid = attribute(known, shapes_of(m), CRASH_SHAPES)
+                        stats["fuzz_exception_predicted_by_model"] += 1
+            if fid:
+                stats["known:" + fid] += 1
             else:
                 rep.violation({"property": pid, "kind": "check", "mode": "fuzz", "text": text, "why": r["why"],
-                               "fuzz_kind": kind})
+                               "fuzz_kind": kind, "front_exc": r.get("front_exc"),
+                               "model": models.get(i)})
         else:
             stats["fuzz_ok"] += 1
     if len(samples) < 2:
@@ -842,7 +868,7 @@ def replay(pid, cfg, p, workdir):
         return {"fails": bool(r["why"]), "why": r["why"] or "monitor holds"}
     c = {"prog": p["prog"], "text": p["program_text"], "lm": lm_from_payload(p), "meta": p.get("meta", {})}
     evaluate([c], workdir, tag="replay")
-    mon = p.get("monitor")
+    mon = (p.get("monitors") or {}).get(pid) or p.get("monitor")
     if c["diff"] and c["model"]["status"] not in ("fuel", "unsupported"):
         return {"fails": True, "why": "correspondence: " + c["diff"]}
     if mon == "C09":
